@@ -11,6 +11,9 @@ Decided:
               bytes the writer wrote. A field the reader synthesises from the loop counter (frame_id = index) is an
               identity claim that only holds if the writer emits one entry per id in dense id order; the header widths
               written by SketchTrackHeader::to_bytes equal those read by from_bytes.
+  COVER-C39d  no false negatives needs every token inserted: the insertion loop of build_term_filter (and the token loop
+              of generate_sketch that feeds it) leaves only through the exhaustion of its iterator - no break / early
+              return / skip conditioned on anything else.
 Not decided: the probabilistic behaviour of the filter (false-positive rate), simhash values."""
 from . import lib
 from .facts import Place, op_place
@@ -38,7 +41,52 @@ def shifts(fn):
     return out
 
 
+def all_tokens_inserted(ctx, F):
+    from . import monotone
+    ctx.rule('COVER-C39d', 'the filter insertion loop exits only when its iterator is exhausted, and every iteration sets the bits')
+    fn = ctx.need('COVER-C39d', 'types::sketch_track::build_term_filter')
+    if fn is None:
+        return
+    ctx.touch(fn, len(fn.blocks))
+    loops = monotone.natural_loops(fn)
+    nexts = [c for c in fn.calls() if c.name == 'next']
+    if not loops or not nexts:
+        ctx.lost('COVER-C39d', 'build_term_filter: insertion loop not found')
+        return
+    for nx in nexts:
+        body = min([b for h, b in loops.items() if nx.bb in b] or [set()], key=len)
+        if not body:
+            continue
+        allowed = set()
+        for vs in lib.variant_switches(fn):
+            if vs.get('enum') == 'Option' and vs['bb'] in body and 'None' in vs['arms']:
+                dd = [x for x in lib.defs(fn).get(vs['place'].l, []) if x['kind'] == 'call' and x['call'] is nx]
+                if dd:
+                    allowed.add((vs['bb'], vs['arms']['None']))
+        exits = [(b, x) for b in body for x in fn.succs(b) if x not in body and (b, x) not in allowed and fn.blocks[x]['t']['k'] not in ('unreachable',)]
+        # every path through one iteration performs the bit stores (|=) on the filter: count index_mut calls dominated by the Some arm
+        sets_ = [c for c in fn.calls() if c.bb in body and c.name == 'index_mut']
+        skip = False
+        if sets_:
+            some = [vs['arms'].get('Some') for vs in lib.variant_switches(fn) if vs['bb'] in body and 'Some' in vs['arms']]
+            back = [b for b in body if nx.bb in fn.succs(b) or any(s == min(body) for s in fn.succs(b))]
+            # an iteration may reach the loop head again while avoiding every bit store
+            for sm in some:
+                seen = fn.reachable(sm, avoid={c.bb for c in sets_})
+                if any(h in seen for h in loops if nx.bb in loops[h] and h != sm):
+                    skip = True
+        ctx.evaluations += len(body)
+        if exits:
+            ctx.bad('COVER-C39d', fn, 'the insertion loop can be left before the token list is exhausted (edge bb%d -> bb%d): later tokens are not inserted and the filter reports them absent' % exits[0],
+                    line=fn.blocks[exits[0][0]]['t'].get('l'), detail='insertion-loop-early-exit')
+        elif skip:
+            ctx.bad('COVER-C39d', fn, 'an iteration of the insertion loop can skip the bit stores: some tokens are not inserted', detail='insertion-skipped')
+        else:
+            ctx.ok('COVER-C39d', fn, 'insertion loop exits only on iterator exhaustion and every iteration sets its %d bit positions' % len(sets_), line=nx.line)
+
+
 def run(ctx):
+    all_tokens_inserted(ctx, ctx.facts())
     ctx.rule('AGREE-C39a', 'probe bit positions ⊆ written bit positions (same (hash >> s) % (len*8) family)')
     ctx.rule('AGREE-C39b', 'index side and query side share tokenizer and hash; probed hashes are hash_token(query tokens)')
     ctx.rule('COVER-C39c', 'sketch-track reader reconstructs every entry field from written bytes (no identity synthesised from the loop index unless ids are dense)')
